@@ -134,7 +134,19 @@ func EnvRefString(t *tape.Tape, label string, vars []string) string {
 		case 5:
 			b.WriteString("\\$" + v)
 		case 6:
-			b.WriteString("${" + v + "-dflt}")
+			v2 := vars[t.Draw(len(vars), label+":var2")]
+			switch t.Draw(6, label+":dflt") {
+			case 0, 1:
+				b.WriteString("${" + v + "-dflt}")
+			case 2:
+				b.WriteString("${" + v + "-$" + v2 + "}")
+			case 3:
+				b.WriteString("${" + v + ":-${" + v2 + "}}")
+			case 4:
+				b.WriteString("${" + v + "-two\nlines ${" + v2 + ":-x}}")
+			default:
+				b.WriteString("${" + v + ":-a${" + v2 + "-b$" + v + "}c}")
+			}
 		case 7:
 			b.WriteString("$${" + v + "}")
 		case 8:
